@@ -69,11 +69,18 @@ class Problem:
         self.kindm = case['metric']
         self.large = bool(case.get('large'))
         self._Dm = None
+        self.unit = 2.0 ** int(case.get('scale_exp', 0))     # natural scale of the distances (exact power of 2)
+        self.skip_model = None
         if self.large:
             self._init_large(case)
+            self.skip_model = 'large-n'
+            return
+        if self.kindm == 'rmsd':
+            self._init_rmsd(case)
+            self.skip_model = 'rmsd'
             return
         if self.kindm == 'table':
-            D = np.array(case['D'], dtype=float)
+            D = np.array(case['D'], dtype=float) * self.unit
             self.n = len(D)
             self.X = np.arange(self.n).reshape(self.n, 1).astype(case.get('dtype', 'int64'))
             self.D_true = D
@@ -92,10 +99,11 @@ class Problem:
             self.tol = 0.0
             self.exact = True
         else:
-            self.X = np.array(case['X']).astype(case['dtype'])
+            self.X = (np.array(case['X']) * self.unit).astype(case['dtype']) if self.unit != 1.0 \
+                else np.array(case['X']).astype(case['dtype'])
             self.n = len(self.X)
             self.metric = self.kindm
-            Xf = np.array(case['X'], dtype=float)
+            Xf = np.array(case['X'], dtype=float) * self.unit
             diff = Xf[:, None, :] - Xf[None, :, :]
             if self.kindm == 'euclidean':
                 self.D_true = np.sqrt((diff ** 2).sum(-1))
@@ -104,6 +112,47 @@ class Problem:
             self.tol = 1e-9
             # manhattan on integers is exact; euclidean involves sqrt -> rounding-sensitive cost ties
             self.exact = (self.kindm == 'manhattan')
+        lay = case.get('x_layout')
+        if lay == 'F':
+            self.X = np.asfortranarray(self.X)
+        elif lay == 'strided':
+            big = np.zeros((2 * self.n, self.X.shape[1] + 1), dtype=self.X.dtype)
+            big[::2, :self.X.shape[1]] = self.X
+            self.X = big[::2, :self.X.shape[1]]
+        elif lay == 'revview':
+            self.X = self.X[::-1].copy()[::-1]
+
+    def _init_rmsd(self, case):
+        """md.Trajectory data with metric 'rmsd' (float32 inside mdtraj: oracle = float64 Kabsch RMSD of the
+        same float32 coordinates, tolerance 5e-3 nm on conformations that differ by ~1 nm)"""
+        import mdtraj as md
+        g = np.random.default_rng(case['gen_seed'])
+        n, na = int(case['n']), int(case['atoms'])
+        xyz = (0.3 * g.normal(size=(n, na, 3))).astype(np.float32)
+        self.n = n
+        self.X = md.Trajectory(xyz, None)
+        self.metric = 'rmsd'
+        x = xyz.astype(float)
+        x = x - x.mean(1, keepdims=True)
+        D = np.zeros((n, n))
+        for i in range(n):
+            for j in range(i + 1, n):
+                H = x[i].T @ x[j]
+                U, S, Vt = np.linalg.svd(H)
+                if np.linalg.det(U) * np.linalg.det(Vt) < 0:
+                    S[-1] = -S[-1]
+                e = (x[i] ** 2).sum() + (x[j] ** 2).sum() - 2 * S.sum()
+                D[i, j] = D[j, i] = np.sqrt(max(e, 0.0) / na)
+        self.D_true = D
+        self.tol, self.exact = 2e-3, False
+
+    def same_frame(self, center, c):
+        """is `center` (what the code reports) the data frame with index c"""
+        if self.kindm == 'rmsd':
+            return hasattr(center, 'xyz') and np.array_equal(np.asarray(center.xyz).reshape(-1),
+                                                             np.asarray(self.X.xyz[c]).reshape(-1))
+        cj = np.asarray(center)
+        return cj.shape == self.X[c].shape and np.array_equal(cj, self.X[c])
 
     def _init_large(self, case):
         """large-n family: the data are regenerated from (gen_seed, n, dim, dtype); no n x n table is ever
@@ -185,8 +234,7 @@ def consistent_msg(P, res):
     for j, c in enumerate(inds):
         if not (0 <= c < n):
             return 'center index %d out of range' % c
-        cj = np.asarray(centers[j])
-        if cj.shape != P.X[c].shape or not np.array_equal(cj, P.X[c]):
+        if not P.same_frame(centers[j], c):
             return 'center %d is not the data frame at its reported index %d' % (j, c)
     if not np.issubdtype(a.dtype, np.integer):
         return 'labels are not integers'
@@ -195,16 +243,16 @@ def consistent_msg(P, res):
     tol = P.tol
     for f in range(n):
         want = P.D_true[f, inds[a[f]]]
-        if abs(d[f] - want) > tol * max(1.0, abs(want)):
+        if abs(d[f] - want) > tol * max(P.unit, abs(want)):
             return 'frame %d: reported distance %r != metric distance %r to its center' % (f, float(d[f]), float(want))
         for j, c in enumerate(inds):
-            if P.D_true[f, c] < d[f] - tol * max(1.0, abs(d[f])):
+            if P.D_true[f, c] < d[f] - tol * max(P.unit, abs(d[f])):
                 return 'frame %d: center %d (frame %d) is strictly closer (%r < %r)' % (
                     f, j, c, float(P.D_true[f, c]), float(d[f]))
     for j, c in enumerate(inds):
         if a[c] != j:
             return 'center %d (frame %d) carries label %d' % (j, c, int(a[c]))
-        if abs(d[c]) > tol:
+        if abs(d[c]) > tol * P.unit:
             return 'center %d (frame %d) has distance %r' % (j, c, float(d[c]))
     return None
 
@@ -222,8 +270,7 @@ def consistent_msg_vec(P, res):
     for j, c in enumerate(inds):
         if not (0 <= c < n):
             return 'center index %d out of range' % c
-        cj = np.asarray(centers[j])
-        if cj.shape != P.X[c].shape or not np.array_equal(cj, P.X[c]):
+        if not P.same_frame(centers[j], c):
             return 'center %d is not the data frame at its reported index %d' % (j, c)
     if not np.issubdtype(a.dtype, np.integer):
         return 'labels are not integers'
@@ -232,18 +279,18 @@ def consistent_msg_vec(P, res):
         return 'label outside [0, %d)' % k
     M = P.true_cols(inds)
     want = M[np.arange(n), a]
-    bad = np.abs(d - want) > P.tol * np.maximum(1.0, np.abs(want))
+    bad = np.abs(d - want) > P.tol * np.maximum(P.unit, np.abs(want))
     if bad.any():
         f = int(np.argmax(bad))
         return 'frame %d: reported distance %r != metric distance %r to its center' % (f, float(d[f]), float(want[f]))
-    closer = M < (d - P.tol * np.maximum(1.0, np.abs(d)))[:, None]
+    closer = M < (d - P.tol * np.maximum(P.unit, np.abs(d)))[:, None]
     if closer.any():
         f, j = [int(x) for x in np.argwhere(closer)[0]]
         return 'frame %d: center %d (frame %d) is strictly closer (%r < %r)' % (f, j, inds[j], float(M[f, j]), float(d[f]))
     for j, c in enumerate(inds):
         if a[c] != j:
             return 'center %d (frame %d) carries label %d' % (j, c, int(a[c]))
-        if abs(d[c]) > P.tol:
+        if abs(d[c]) > P.tol * P.unit:
             return 'center %d (frame %d) has distance %r' % (j, c, float(d[c]))
     return None
 
@@ -273,6 +320,8 @@ def _snap(o):
         return None
     if isinstance(o, np.ndarray):
         return (o.dtype.str, o.shape, o.tobytes())
+    if hasattr(o, 'xyz'):
+        return ('traj', np.asarray(o.xyz).shape, np.asarray(o.xyz).tobytes())
     if isinstance(o, (list, tuple)):
         return tuple(_snap(x) for x in o)
     return repr(o)
@@ -340,13 +389,38 @@ def _norm(res):
             'centers': list(res.centers)}
 
 
-def _state_arrays(st, n):
-    return (np.array(st['assign'], dtype=int).reshape(n), np.array(st['dist'], dtype=float).reshape(n),
+def _state_arrays(st, n, adt='int64', ddt='float64'):
+    return (np.array(st['assign'], dtype=adt).reshape(n), np.array(st['dist'], dtype=ddt).reshape(n),
             [int(i) for i in st['inds']])
 
 
+def _as_form(vals, form):
+    """an index argument in the container the case asks for"""
+    if form == 'array':
+        return np.array(vals, dtype=np.int64)
+    if form == 'array32':
+        return np.array(vals, dtype=np.int32)
+    if form == 'tuple':
+        return tuple(int(v) for v in vals)
+    return [int(v) for v in vals]
+
+
+def _same_result(a, b):
+    return (a['inds'] == b['inds'] and np.array_equal(a['assign'], b['assign'])
+            and np.array_equal(a['dist'], b['dist']))
+
+
+def _copy_result(r):
+    return {'inds': list(r['inds']), 'assign': np.array(r['assign']), 'dist': np.array(r['dist']),
+            'centers': [c if hasattr(c, 'xyz') else np.array(c) for c in r['centers']]}
+
+
 def run_real(P, case, n_iters=None, record=None):
-    """Run one entry point. Returns dict(ok=norm result | error=name, unmodified=msg|None, log=[…])."""
+    """Run one entry point. Returns dict(ok=norm result | error=name, modified=[…], log=[…]).
+    `reuse` = r > 1 repeats the call r times with the SAME argument objects (fresh recorded RandomState of
+    the same seed): results must be identical and the arguments untouched after every call.
+    kind `kmedoids_feedback`: several rounds, each warm-started from the very objects the previous round
+    returned."""
     from enspara.cluster import kcenters as kc, kmedoids as km, hybrid as hy, util
     kind = case['kind']
     X = P.X
@@ -354,18 +428,23 @@ def run_real(P, case, n_iters=None, record=None):
     n_iters = case.get('n_iters') if n_iters is None else n_iters
     watched = {'X': X}
     out = {}
-    rs = None
     seed = case.get('seed', 0)
-    if case.get('rs') == 'rec':
-        rs = RecRS(seed)
-    elif case.get('rs') == 'int':
-        rs = seed
+
+    def new_rs():
+        if case.get('rs') == 'rec':
+            return RecRS(seed)
+        if case.get('rs') == 'int':
+            return seed
+        return None
     ncl = case.get('n_clusters')
     cutoff = case.get('cutoff')
     init = case.get('init')
     init_centers = None
+    is_traj = hasattr(X, 'xyz')
     if init is not None:
-        if case.get('init_form') == 'list':
+        if is_traj:
+            init_centers = X[init]
+        elif case.get('init_form') == 'list':
             init_centers = [X[i].copy() for i in init]
         else:
             init_centers = X[init].copy()
@@ -373,113 +452,148 @@ def run_real(P, case, n_iters=None, record=None):
     st = case.get('state')
     a0 = d0 = i0 = None
     if st is not None:
-        a0, d0, i0 = _state_arrays(st, P.n)
-        if case.get('inds_form') == 'array':
-            i0 = np.array(i0, dtype=int)
+        a0, d0, i0 = _state_arrays(st, P.n, case.get('assign_dtype', 'int64'), case.get('dist_dtype', 'float64'))
+        i0 = _as_form(i0, case.get('inds_form'))
     props = case.get('proposals')
     if props is not None:
-        props = list(props) if case.get('props_form') != 'array' else np.array(props, dtype=int)
+        props = _as_form(props, case.get('props_form'))
         watched['proposals'] = props
-    kw = {}
-    before = None
+
+    def call(rs):
+        """one call of the entry point with the prepared argument objects"""
+        res = {}
+        kw = {}
+        if kind == 'assign':
+            cs = [X[i].copy() for i in case['centers']]
+            a, d = util.assign_to_nearest_center(X, cs, P.metric_fn())
+            res['ok'] = {'inds': list(case['centers']), 'assign': np.asarray(a), 'dist': np.asarray(d, dtype=float),
+                         'centers': cs}
+        elif kind == 'assign_xyz':
+            import mdtraj as md
+            cs, F = case['centers'], case['frames']
+            xyz = np.zeros((len(cs), 1, 3), dtype=np.float32)
+            xyz[:, 0, 0] = cs
+            C = md.Trajectory(xyz, None)
+            if case.get('traj_form') == 'md':
+                fx = np.zeros((len(F), 1, 3), dtype=np.float32)
+                fx[:, 0, 0] = F
+                T = md.Trajectory(fx, None)
+            else:
+                T = X[F].copy()
+            tb = _snap(T)
+            a, d = util.assign_to_nearest_center(T, C, P.metric_fn())
+            if _snap(T) != tb:
+                res['extra_modified'] = ['trajectory']
+            res['sub'] = {'assign': np.asarray(a), 'dist': np.asarray(d, dtype=float)}
+        elif kind in ('kcenters', 'KCenters.fit'):
+            if kind == 'kcenters':
+                if ncl is not None:
+                    kw['n_clusters'] = ncl
+                if cutoff is not None:
+                    kw['dist_cutoff'] = cutoff
+                if case.get('tri'):
+                    kw['use_triangle_inequality'] = True
+                r = kc.kcenters(X, metric, init_centers=init_centers, **kw)
+            else:
+                est = kc.KCenters(metric, n_clusters=ncl, cluster_radius=cutoff)
+                est.fit(X, init_centers=init_centers)
+                r = est.result_
+                res['attrs'] = (est.labels_, est.distances_, est.center_indices_, est.centers_)
+            res['ok'] = _norm(r)
+        elif kind in ('kmedoids', 'KMedoids.fit'):
+            warm = case.get('warm', 'cold')
+            if warm in ('ad', 'all'):
+                kw['assignments'] = a0
+                kw['distances'] = d0
+            if warm in ('inds', 'all'):
+                kw['cluster_center_inds'] = i0
+            if kind == 'kmedoids':
+                r = km.kmedoids(X, metric, n_clusters=ncl, n_iters=n_iters, proposals=props,
+                                random_state=rs, **kw)
+            else:
+                with seeded_entropy(seed):
+                    est = km.KMedoids(metric, n_clusters=ncl, n_iters=n_iters)
+                    est.fit(X, **kw)
+                r = est.result_
+                res['attrs'] = (est.labels_, est.distances_, est.center_indices_, est.centers_)
+            res['ok'] = _norm(r)
+        elif kind == 'kmedoids_feedback':
+            warm = case.get('warm', 'all')
+            if warm in ('ad', 'all'):
+                kw['assignments'] = a0
+                kw['distances'] = d0
+            if warm in ('inds', 'all'):
+                kw['cluster_center_inds'] = i0
+            rounds = []
+            held = []          # (objects handed back by the code, their snapshot when they were returned)
+            for t in case['rounds']:
+                r = km.kmedoids(X, metric, n_iters=t, proposals=props, random_state=rs, **kw)
+                rounds.append(_copy_result(_norm(r)))
+                objs = (r.center_indices, r.assignments, r.distances)
+                held.append((objs, _snap(list(objs))))
+                kw = {'assignments': r.assignments, 'distances': r.distances,
+                      'cluster_center_inds': r.center_indices}
+            bad = [i for i, (objs, sn) in enumerate(held) if _snap(list(objs)) != sn]
+            if bad:
+                res['extra_modified'] = ['result of round %d (reused as the next warm start)' % (bad[0] + 1)]
+            res['rounds'] = rounds
+            res['ok'] = rounds[-1]
+        elif kind == 'pam_update':
+            mi, dd, aa, cc = km._kmedoids_pam_update(X, P.metric_fn(), i0, a0, d0, proposals=props,
+                                                     random_state=rs)
+            res['ok'] = {'inds': [int(i) for i in mi], 'assign': np.asarray(aa),
+                         'dist': np.asarray(dd, dtype=float), 'centers': list(cc)}
+        elif kind in ('hybrid', 'KHybrid.fit'):
+            if kind == 'hybrid':
+                if ncl is not None:
+                    kw['n_clusters'] = ncl
+                if cutoff is not None:
+                    kw['dist_cutoff'] = cutoff
+                r = hy.hybrid(X, metric, n_iters=n_iters, init_centers=init_centers, random_state=rs, **kw)
+            else:
+                est = hy.KHybrid(metric, n_clusters=ncl, cluster_radius=cutoff, kmedoids_updates=n_iters,
+                                 random_state=rs)
+                est.fit(X, init_centers=init_centers)
+                r = est.result_
+                res['attrs'] = (est.labels_, est.distances_, est.center_indices_, est.centers_)
+            res['ok'] = _norm(r)
+        else:
+            raise ValueError('unknown kind %r' % kind)
+        return res
+
+    if kind in ('kmedoids', 'KMedoids.fit', 'kmedoids_feedback'):
+        warm = case.get('warm', 'cold' if kind != 'kmedoids_feedback' else 'all')
+        if warm in ('ad', 'all'):
+            watched['assignments'], watched['distances'] = a0, d0
+        if warm in ('inds', 'all'):
+            watched['cluster_center_inds'] = i0
+    elif kind == 'pam_update':
+        watched['assignments'], watched['distances'], watched['medoid_inds'] = a0, d0, i0
+    before = {k: _snap(v) for k, v in watched.items()}
+    modified = []
+    rs = None
     try:
         with quiet_logs() as cap:
-            if kind == 'assign':
-                cs = [X[i].copy() for i in case['centers']]
-                watched['centers'] = cs
-                before = {k: _snap(v) for k, v in watched.items()}
-                a, d = util.assign_to_nearest_center(X, cs, P.metric_fn())
-                out['ok'] = {'inds': list(case['centers']), 'assign': np.asarray(a), 'dist': np.asarray(d, dtype=float),
-                             'centers': cs}
-            elif kind == 'assign_xyz':
-                import mdtraj as md
-                cs, F = case['centers'], case['frames']
-                xyz = np.zeros((len(cs), 1, 3), dtype=np.float32)
-                xyz[:, 0, 0] = cs
-                C = md.Trajectory(xyz, None)
-                if case.get('traj_form') == 'md':
-                    fx = np.zeros((len(F), 1, 3), dtype=np.float32)
-                    fx[:, 0, 0] = F
-                    T = md.Trajectory(fx, None)
-                else:
-                    T = X[F].copy()
-                    watched['trajectory'] = T
-                before = {k: _snap(v) for k, v in watched.items()}
-                a, d = util.assign_to_nearest_center(T, C, P.metric_fn())
-                out['sub'] = {'assign': np.asarray(a), 'dist': np.asarray(d, dtype=float)}
-            elif kind in ('kcenters', 'KCenters.fit'):
-                before = {k: _snap(v) for k, v in watched.items()}
-                if kind == 'kcenters':
-                    kw = {}
-                    if ncl is not None:
-                        kw['n_clusters'] = ncl
-                    if cutoff is not None:
-                        kw['dist_cutoff'] = cutoff
-                    if case.get('tri'):
-                        kw['use_triangle_inequality'] = True
-                    r = kc.kcenters(X, metric, init_centers=init_centers, **kw)
-                else:
-                    est = kc.KCenters(metric, n_clusters=ncl, cluster_radius=cutoff)
-                    est.fit(X, init_centers=init_centers)
-                    r = est.result_
-                    out['attrs'] = (est.labels_, est.distances_, est.center_indices_, est.centers_)
-                out['ok'] = _norm(r)
-            elif kind in ('kmedoids', 'KMedoids.fit'):
-                warm = case.get('warm', 'cold')
-                if warm in ('ad', 'all'):
-                    kw['assignments'] = a0
-                    kw['distances'] = d0
-                    watched['assignments'] = a0
-                    watched['distances'] = d0
-                if warm in ('inds', 'all'):
-                    kw['cluster_center_inds'] = i0
-                    watched['cluster_center_inds'] = i0
-                before = {k: _snap(v) for k, v in watched.items()}
-                if kind == 'kmedoids':
-                    r = km.kmedoids(X, metric, n_clusters=ncl, n_iters=n_iters, proposals=props,
-                                    random_state=rs, **kw)
-                else:
-                    with seeded_entropy(seed):
-                        est = km.KMedoids(metric, n_clusters=ncl, n_iters=n_iters)
-                        est.fit(X, **kw)
-                    r = est.result_
-                    out['attrs'] = (est.labels_, est.distances_, est.center_indices_, est.centers_)
-                out['ok'] = _norm(r)
-            elif kind == 'pam_update':
-                watched['assignments'] = a0
-                watched['distances'] = d0
-                watched['medoid_inds'] = i0
-                before = {k: _snap(v) for k, v in watched.items()}
-                mi, dd, aa, cc = km._kmedoids_pam_update(X, P.metric_fn(), i0, a0, d0, proposals=props,
-                                                         random_state=rs)
-                out['ok'] = {'inds': [int(i) for i in mi], 'assign': np.asarray(aa),
-                             'dist': np.asarray(dd, dtype=float), 'centers': list(cc)}
-            elif kind in ('hybrid', 'KHybrid.fit'):
-                before = {k: _snap(v) for k, v in watched.items()}
-                if kind == 'hybrid':
-                    kw = {}
-                    if ncl is not None:
-                        kw['n_clusters'] = ncl
-                    if cutoff is not None:
-                        kw['dist_cutoff'] = cutoff
-                    r = hy.hybrid(X, metric, n_iters=n_iters, init_centers=init_centers, random_state=rs, **kw)
-                else:
-                    est = hy.KHybrid(metric, n_clusters=ncl, cluster_radius=cutoff, kmedoids_updates=n_iters,
-                                     random_state=rs)
-                    est.fit(X, init_centers=init_centers)
-                    r = est.result_
-                    out['attrs'] = (est.labels_, est.distances_, est.center_indices_, est.centers_)
-                out['ok'] = _norm(r)
-            else:
-                raise ValueError('unknown kind %r' % kind)
+            first = None
+            for rep in range(max(1, int(case.get('reuse', 1)))):
+                rs = new_rs()
+                cap.acc = cap.rej = 0
+                res = call(rs)
+                after = {k: _snap(v) for k, v in watched.items()}
+                modified += [k for k in before if before[k] != after[k] and k not in modified]
+                modified += [k for k in res.get('extra_modified', []) if k not in modified]
+                if first is None:
+                    first = res
+                elif 'ok' in res and not _same_result(first['ok'], res['ok']):
+                    out['reuse_differs'] = rep + 1
+            out.update(res)
             out['acc'], out['rej'] = cap.acc, cap.rej
     except Exception as e:  # noqa
         out['error'] = type(e).__name__
         out['error_text'] = str(e)[:200]
-    if before is not None:
         after = {k: _snap(v) for k, v in watched.items()}
-        bad = [k for k in before if before[k] != after[k]]
-        out['modified'] = bad
+        modified += [k for k in before if before[k] != after[k] and k not in modified]
+    out['modified'] = modified
     if isinstance(rs, RecRS):
         out['log'] = rs.log
     return out
@@ -508,9 +622,9 @@ def model_request(P, case, oracle=None, initial=None, area='C01'):
         rq.update(op=area + '.kcenters', n_clusters=case.get('n_clusters'),
                   cutoff=_rat(case['cutoff']) if case.get('cutoff') is not None else 0,
                   init=case.get('init'))
-    elif kind in ('kmedoids', 'KMedoids.fit', 'pam_update'):
+    elif kind in ('kmedoids', 'KMedoids.fit', 'pam_update', 'kmedoids_feedback'):
         st = case.get('state')
-        warm = case.get('warm', 'cold') if kind != 'pam_update' else 'all'
+        warm = case.get('warm', 'cold' if kind != 'kmedoids_feedback' else 'all') if kind != 'pam_update' else 'all'
         rq.update(op=area + ('.pam' if kind == 'pam_update' else '.kmedoids'),
                   n_iters=case.get('n_iters', 1), proposals=case.get('proposals'), oracle=oracle or [])
         if warm == 'cold':
@@ -772,11 +886,257 @@ def large_family(ctx):
     return cases
 
 
-def gen_case(rng, kind=None, nmax=14):
+# ---- audit families (blind-spot classes 2-6)
+
+def vary_containers(rng, c):
+    """class 2: every argument in every container / dtype / memory layout the signature admits"""
+    c['family'] = c.get('family', 'containers')
+    if c.get('state') is not None:
+        c['inds_form'] = str(rng.choice(['list', 'array', 'array32']))
+        c['assign_dtype'] = str(rng.choice(['int64', 'int32', 'int16', 'int8']))
+        if c['metric'] in ('table', 'manhattan'):          # integer-valued distances: float32 holds them exactly
+            c['dist_dtype'] = str(rng.choice(['float64', 'float32']))
+    if c.get('proposals') is not None:
+        c['props_form'] = str(rng.choice(['list', 'tuple', 'array', 'array32']))
+    if c.get('init') is not None:
+        c['init_form'] = str(rng.choice(['list', 'array']))
+    c['x_layout'] = str(rng.choice(['F', 'strided', 'revview']))
+    return c
+
+
+def tie_problem(rng, manhattan=False):
+    """class 3: clusters in which every member is an equally good medoid (cliques / pairs: swapping the medoid
+    gives EXACTLY the same cost with different distances) next to star-shaped clusters whose hub strictly
+    improves on a leaf - far apart, so a step only concerns its own cluster"""
+    m = int(rng.integers(2, 6))
+    groups, pts = [], []
+    for ci in range(m):
+        if manhattan:
+            shape = str(rng.choice(['single', 'pair', 'ell']))
+            base = (20 * ci, int(rng.integers(-2, 3)))
+            mem = {'single': [(0, 0)], 'pair': [(0, 0), (1, 0)], 'ell': [(0, 0), (1, 0), (0, 1)]}[shape]
+            groups.append((shape, list(range(len(pts), len(pts) + len(mem)))))
+            pts += [[base[0] + a, base[1] + b] for a, b in mem]
+        else:
+            shape = str(rng.choice(['single', 'clique', 'clique', 'star']))
+            size = 1 if shape == 'single' else int(rng.integers(2, 5)) if shape == 'clique' else int(rng.integers(3, 6))
+            groups.append((shape, list(range(len(pts), len(pts) + size)), int(rng.integers(1, 4))))
+            pts += [None] * size
+    n = len(pts)
+    if manhattan:
+        P0 = np.array(pts)
+        D = np.abs(P0[:, None, :] - P0[None, :, :]).sum(-1)
+    else:
+        D = np.zeros((n, n), dtype=int)
+        for gi, (sh, mem, w) in enumerate(groups):
+            for gj, (sh2, mem2, w2) in enumerate(groups):
+                for a in mem:
+                    for b in mem2:
+                        if a == b:
+                            continue
+                        if gi != gj:
+                            D[a, b] = 10 + (gi + gj) % 3
+                        elif sh == 'star':
+                            D[a, b] = w if (a == mem[0] or b == mem[0]) else 2 * w
+                        else:
+                            D[a, b] = w
+    # medoids: any member; for stars mostly a leaf (so that the hub is a strictly better proposal)
+    meds = []
+    for g in groups:
+        mem = g[1]
+        meds.append(int(mem[-1] if (g[0] in ('star', 'ell') and rng.random() < 0.7) else rng.choice(mem)))
+    perm = [int(i) for i in rng.permutation(n)]          # new frame i = old frame perm[i]
+    inv = {o: i for i, o in enumerate(perm)}
+    D = D[np.ix_(perm, perm)]
+    order = [int(i) for i in rng.permutation(m)]
+    inds = [inv[meds[g]] for g in order]
+    label_of = {}
+    for lbl, g in enumerate(order):
+        for o in groups[g][1]:
+            label_of[inv[o]] = lbl
+    assign = [label_of[f] for f in range(n)]
+    dist = [float(D[f, inds[assign[f]]]) for f in range(n)]
+    members = {lbl: [inv[o] for o in groups[g][1]] for lbl, g in enumerate(order)}
+    if manhattan:
+        prob = {'metric': 'manhattan', 'X': [pts[o] for o in perm],
+                'dtype': str(rng.choice(['int16', 'int32', 'int64', 'float64'])), 'style': 'tie-pairs'}
+    else:
+        prob = {'metric': 'table', 'D': D.tolist(), 'dtype': 'int64', 'style': 'tie-cliques'}
+    return prob, {'inds': inds, 'assign': assign, 'dist': dist}, members
+
+
+def gen_tie_case(rng):
+    prob, st, members = tie_problem(rng, manhattan=rng.random() < 0.3)
+    c = dict(prob)
+    c['family'] = 'exact-ties'
+    c['state'] = st
+    c['seed'] = int(rng.integers(0, 2 ** 31))
+    k = len(st['inds'])
+    u = rng.random()
+    if u < 0.6:
+        # explicit proposals: another member of the own cluster (an exact tie unless it is a star's hub)
+        props = []
+        for lbl in range(k):
+            others = [f for f in members[lbl] if f != st['inds'][lbl]]
+            props.append(int(rng.choice(others)) if others and rng.random() < 0.85 else int(st['inds'][lbl]))
+        c['proposals'] = props
+        c['props_form'] = str(rng.choice(['list', 'tuple', 'array']))
+        c['rs'] = None
+    else:
+        c['rs'] = 'rec'
+    c['inds_form'] = str(rng.choice(['list', 'array']))
+    v = rng.random()
+    if v < 0.3:
+        c['kind'] = 'pam_update'
+        c['n_iters'] = 1
+        c['chain'] = int(rng.integers(2, 5))
+    elif v < 0.75:
+        c['kind'] = 'kmedoids'
+        c['warm'] = str(rng.choice(['all', 'inds', 'ad']))
+        c['n_iters'] = int(rng.integers(1, 5))
+    else:
+        c['kind'] = 'kmedoids_feedback'
+        c['warm'] = 'all'
+        c['rounds'] = [int(x) for x in rng.integers(1, 3, size=int(rng.integers(2, 4)))]
+        c['n_iters'] = int(sum(c['rounds']))
+    return c
+
+
+def degenerate_problem(rng):
+    """class 4: all points equidistant; one far outlier next to a tight group; two points"""
+    n = int(rng.integers(2, 9))
+    style = str(rng.choice(['simplex', 'outlier']))
+    if style == 'simplex':
+        w = int(rng.integers(1, 5))
+        D = (w * (1 - np.eye(n, dtype=int))).tolist()
+    else:
+        A = rng.integers(1, 3, size=(n, n))
+        D = np.triu(A, 1)
+        D = D + D.T
+        D[-1, :] = D[:, -1] = 1000
+        D[-1, -1] = 0
+        p = [int(i) for i in rng.permutation(n)]
+        D = D[np.ix_(p, p)].tolist()
+    return {'metric': 'table', 'D': D, 'dtype': str(rng.choice(['int64', 'float64'])), 'style': style}
+
+
+def gen_degenerate_case(rng):
+    prob = degenerate_problem(rng)
+    n = len(prob['D'])
+    k = int(rng.choice([1, 2, max(1, n - 1), n]))
+    kind = str(rng.choice(['kcenters', 'KCenters.fit', 'kmedoids', 'KMedoids.fit', 'pam_update', 'hybrid',
+                           'KHybrid.fit', 'assign']))
+    c = gen_case(rng, kind=kind, problem=prob, force_k=min(k, n))
+    if kind == 'assign':
+        c['centers'] = [int(i) for i in rng.choice(n, size=min(k, n), replace=False)]
+    c['family'] = 'degenerate'
+    return c
+
+
+def gen_reuse_case(rng):
+    """class 5: the same argument objects handed to the same call several times; returned objects fed back
+    as the next warm start"""
+    u = rng.random()
+    if u < 0.45:
+        c = gen_case(rng, kind='kmedoids')
+        while c.get('warm') == 'cold':
+            c = gen_case(rng, kind='kmedoids')
+        c['kind'] = 'kmedoids_feedback'
+        c['rounds'] = [int(x) for x in rng.integers(1, 3, size=int(rng.integers(2, 5)))]
+        c['n_iters'] = int(sum(c['rounds']))
+        if c.get('rs') == 'int':
+            c['rs'] = 'rec'
+    else:
+        kind = str(rng.choice(['kmedoids', 'pam_update', 'kcenters', 'hybrid', 'KMedoids.fit']))
+        c = gen_case(rng, kind=kind)
+        if c.get('n_iters') == 0:
+            c['n_iters'] = 1
+        c['reuse'] = int(rng.integers(2, 4))
+    if c.get('state') is not None:
+        c['inds_form'] = str(rng.choice(['array', 'array32', 'list']))
+    c['family'] = 'reuse'
+    return c
+
+
+def gen_config_case(rng):
+    """class 6: many sweeps; proposals that are exactly the current medoids; zero / one sweep"""
+    kind = str(rng.choice(['kmedoids', 'pam_update', 'hybrid', 'KHybrid.fit', 'KMedoids.fit']))
+    c = gen_case(rng, kind=kind)
+    u = rng.random()
+    if kind in ('kmedoids', 'pam_update') and c.get('state') is not None and c.get('warm') != 'cold' and u < 0.5:
+        c['proposals'] = [int(i) for i in c['state']['inds']]
+        c['props_form'] = str(rng.choice(['list', 'array', 'tuple']))
+        c['rs'] = None
+    if kind != 'pam_update':
+        c['n_iters'] = int(rng.choice([0, 1, 1, 7, 9, 12])) if kind != 'hybrid' else int(rng.choice([0, 1, 8, 11]))
+    c['family'] = 'config'
+    return c
+
+
+def gen_rmsd_case(rng):
+    """class 2: md.Trajectory data with the 'rmsd' metric (oracle only)"""
+    n = int(rng.integers(6, 13))
+    c = {'metric': 'rmsd', 'n': n, 'atoms': int(rng.integers(4, 7)), 'gen_seed': int(rng.integers(0, 2 ** 31)),
+         'style': 'rmsd', 'family': 'rmsd-trajectory'}
+    kind = str(rng.choice(['kcenters', 'KCenters.fit', 'hybrid', 'KHybrid.fit', 'kmedoids']))
+    c['kind'] = kind
+    k = int(rng.integers(1, max(2, n // 2) + 1))
+    c['seed'] = int(rng.integers(0, 2 ** 31))
+    if kind == 'kmedoids':
+        c['warm'] = 'cold'
+        c['n_clusters'] = k
+        c['n_iters'] = int(rng.integers(1, 3))
+        c['rs'] = 'int'
+    else:
+        c['n_clusters'] = k
+        c['cutoff'] = None
+        if rng.random() < 0.4:
+            c['init'] = [int(i) for i in rng.choice(n, size=min(k, 2), replace=False)]
+        if kind in ('hybrid', 'KHybrid.fit'):
+            c['n_iters'] = int(rng.integers(0, 3))
+            c['rs'] = 'int'
+    return c
+
+
+def audit_families(ctx, kinds=None):
+    """the families added by the generator blind-spot audit (classes 2-6), both tiers"""
+    rng = ctx.rng
+    cases = []
+    for _ in range(ctx.n(40, 600)):                       # class 2
+        kind = str(rng.choice(['kmedoids', 'pam_update', 'hybrid', 'kcenters', 'KMedoids.fit', 'KHybrid.fit',
+                               'KCenters.fit', 'assign']))
+        cases.append(vary_containers(rng, gen_case(rng, kind=kind)))
+    # md.Trajectory + 'rmsd' is NOT generated: mdtraj's rmsd centers the caller's trajectory in place, so
+    # "inputs are not modified" cannot hold for it; C01 quantifies over euclidean / manhattan / user callables.
+    for _ in range(ctx.n(40, 500)):                       # class 3: scale
+        c = gen_case(rng, scale_exp=int(rng.choice([30, -30, -10, 20])))
+        c['family'] = 'scaled'
+        cases.append(c)
+    for _ in range(ctx.n(60, 1500)):                      # class 3: exact ties
+        cases.append(gen_tie_case(rng))
+    for _ in range(ctx.n(40, 500)):                       # class 4
+        cases.append(gen_degenerate_case(rng))
+    for _ in range(ctx.n(40, 600)):                       # class 5
+        cases.append(gen_reuse_case(rng))
+    for _ in range(ctx.n(30, 400)):                       # class 6
+        cases.append(gen_config_case(rng))
+    if kinds is not None:
+        cases = [c for c in cases if c['kind'] in kinds]
+    return cases
+
+
+def gen_case(rng, kind=None, nmax=14, problem=None, scale_exp=0, force_k=None):
     kind = kind or str(rng.choice(ENTRY_KINDS, p=[.14, .08, .24, .08, .2, .14, .08, .04]))
-    c = gen_problem_case(rng, nmax=nmax, nmin=2 if kind != 'kcenters' else 1)
-    if kind in ('pam_update', 'kmedoids') and rng.random() < 0.15:
-        c = three_branch_case(rng)
+    if problem is not None:
+        c = dict(problem)
+    else:
+        c = gen_problem_case(rng, nmax=nmax, nmin=2 if kind != 'kcenters' else 1)
+        if kind in ('pam_update', 'kmedoids') and rng.random() < 0.15:
+            c = three_branch_case(rng)
+    if scale_exp:
+        c['scale_exp'] = int(scale_exp)
+        if c['metric'] != 'table':
+            c['dtype'] = 'float64' if abs(scale_exp) > 20 or rng.random() < 0.5 else 'float32'
     c['kind'] = kind
     P = Problem(c)
     n = P.n
@@ -794,8 +1154,11 @@ def gen_case(rng, kind=None, nmax=14):
         c['centers'] = [int(i) for i in rng.choice(n, size=k, replace=False)]
     elif kind in ('kcenters', 'KCenters.fit', 'hybrid', 'KHybrid.fit'):
         mode = rng.random()
-        dmax = float(np.max(P.D_true)) if n > 1 else 1.0
-        if mode < 0.55:
+        dmax = float(np.max(P.D_true)) / P.unit if n > 1 else 1.0
+        if force_k is not None:
+            c['n_clusters'] = int(force_k)
+            c['cutoff'] = None
+        elif mode < 0.55:
             c['n_clusters'] = int(rng.integers(1, n + 3))
             c['cutoff'] = None if rng.random() < 0.7 else 0
         elif mode < 0.8:
@@ -806,7 +1169,7 @@ def gen_case(rng, kind=None, nmax=14):
             c['n_clusters'] = int(rng.integers(1, n + 3))
             c['cutoff'] = [1, 2, max(1.0, np.floor(dmax / 2))][int(rng.integers(0, 3))]
         if c['cutoff'] is not None:
-            c['cutoff'] = float(c['cutoff'])
+            c['cutoff'] = float(c['cutoff']) * P.unit
         if rng.random() < 0.35:
             ki = int(rng.integers(1, min(n, 4) + 1))
             c['init'] = [int(i) for i in rng.choice(n, size=ki, replace=False)]
@@ -820,6 +1183,8 @@ def gen_case(rng, kind=None, nmax=14):
     elif kind in ('kmedoids', 'KMedoids.fit', 'pam_update'):
         k = int(rng.integers(1, n + 1)) if rng.random() < 0.9 else n
         k = min(k, max(1, n))
+        if force_k is not None:
+            k = min(int(force_k), n)
         st = consistent_state(rng, P, k, first_tie=rng.random() < 0.3)
         c['n_iters'] = int(rng.integers(1, 5)) if kind != 'pam_update' else 1
         c['seed'] = int(rng.integers(0, 2 ** 31))
@@ -880,8 +1245,8 @@ def check_attrs(P, out):
 def expected_k(P, case, res):
     """number of centers the call must report (None when the radius decides)"""
     kind = case['kind']
-    if kind in ('kmedoids', 'KMedoids.fit', 'pam_update'):
-        if case.get('warm', 'cold') == 'cold' and kind != 'pam_update':
+    if kind in ('kmedoids', 'KMedoids.fit', 'pam_update', 'kmedoids_feedback'):
+        if case.get('warm', 'cold') == 'cold' and kind in ('kmedoids', 'KMedoids.fit'):
             return case['n_clusters']
         return len(case['state']['inds'])
     return None
@@ -895,7 +1260,7 @@ def phase1(ctx, case, area='C01'):
     T = case.get('n_iters', 0) or 0
     out = run_real(P, case)
     rec = {'case': case, 'P': P, 'out': out, 'rq': None, 'bad': False}
-    tags = [kind, 'metric=' + P.kindm, 'dtype=' + str(P.X.dtype), 'n=%s' % ('1' if P.n == 1 else '2-5' if P.n <= 5
+    tags = [kind, 'metric=' + P.kindm, 'dtype=' + str(getattr(P.X, 'dtype', 'trajectory')), 'n=%s' % ('1' if P.n == 1 else '2-5' if P.n <= 5
                                                                           else '6-14' if P.n <= 14 else '15+')]
     if case.get('style'):
         tags.append('table=' + case['style'])
@@ -911,6 +1276,25 @@ def phase1(ctx, case, area='C01'):
     if P.large:
         tags.append('large-n')
         tags += case.get('large_tags', [])
+    if case.get('family'):
+        tags.append('family=' + case['family'])
+    for kf in ('inds_form', 'props_form', 'assign_dtype', 'dist_dtype', 'x_layout'):
+        if case.get(kf) and (kf != 'props_form' or case.get('proposals') is not None) and \
+                (kf not in ('inds_form', 'assign_dtype', 'dist_dtype') or case.get('state') is not None):
+            tags.append('%s=%s' % (kf, case[kf]))
+    if case.get('scale_exp'):
+        tags.append('scale=2^%d' % case['scale_exp'])
+    if case.get('reuse', 1) > 1:
+        tags.append('same-objects-reused')
+    if kind == 'kmedoids_feedback':
+        tags.append('results-fed-back-rounds=%d' % len(case['rounds']))
+    if case.get('proposals') is not None and case.get('state') is not None and \
+            [int(p) for p in case['proposals']] == [int(i) for i in case['state']['inds']]:
+        tags.append('proposals=current-medoids')
+    if kind not in ('kcenters', 'KCenters.fit', 'assign', 'assign_xyz', 'pam_update'):
+        tags.append('n_iters=%s' % ('0' if T == 0 else '1' if T == 1 else '2-4' if T <= 4 else '5+'))
+    if hasattr(P.X, 'dtype'):
+        pass
     k_guess = len(out['ok']['inds']) if 'ok' in out else 0
     if 'ok' in out:
         tags.append('k=1' if k_guess == 1 else 'k=n' if k_guess == P.n else 'k>n' if k_guess > P.n else '1<k<n')
@@ -963,6 +1347,16 @@ def phase1(ctx, case, area='C01'):
             msg = check_attrs(P, out)
         if msg is None and out.get('modified'):
             msg = 'input(s) modified by the call: %s' % ', '.join(out['modified'])
+        if msg is None and out.get('reuse_differs'):
+            msg = 'same argument objects, same seed: call %d returned a different result' % out['reuse_differs']
+        if msg is None and kind == 'kmedoids_feedback':
+            for ri, rr in enumerate(out['rounds']):
+                m2 = consistent_msg(P, rr)
+                if m2 is None and len(rr['inds']) != len(case['state']['inds']):
+                    m2 = 'number of centers changed'
+                if m2:
+                    msg = 'round %d (warm start from the previous result): %s' % (ri + 1, m2)
+                    break
         ek = expected_k(P, case, out['ok'])
         if msg is None and ek is not None and len(out['ok']['inds']) != ek:
             msg = 'number of centers %d != %d' % (len(out['ok']['inds']), ek)
@@ -970,6 +1364,8 @@ def phase1(ctx, case, area='C01'):
             _fail(ctx, '%s: %s' % (kind, msg), case)
             rec['bad'] = True
             return rec
+        if msg is None and P.n and np.any(np.bincount(np.asarray(out['ok']['assign']).astype(int)) == 1):
+            ctx.tag('singleton-cluster')
         if out.get('acc'):
             ctx.tag('pam-accept', out['acc'])
         if out.get('rej'):
@@ -993,9 +1389,9 @@ def phase1(ctx, case, area='C01'):
         return rec
     if not USE_MODEL:
         return rec
-    if P.large:
-        # an n x n table of rationals is too large to ship: oracle only
-        ctx.tag('model-skipped-large-n')
+    if P.skip_model:
+        # an n x n table of rationals is too large to ship / float32 rmsd is not a table the model sees: oracle only
+        ctx.tag('model-skipped-' + P.skip_model)
         return rec
     initial = None
     if kind == 'kmedoids' and case.get('warm', 'cold') == 'cold':
@@ -1053,6 +1449,10 @@ def compare_with_model(ctx, P, case, out, m, area='C01'):
     mo = m['ok']
     trace = mo.get('trace', [])
     for st in trace:
+        if st['old'] == st['new'] and not st.get('same'):
+            ctx.tag('pam-exact-tie-other-candidate')
+            if any(s2['acc'] for s2 in trace[trace.index(st) + 1:]):
+                ctx.tag('pam-accept-after-exact-tie')
         for b in ('dn', 'other', 'this'):
             if st[b]:
                 ctx.tag('pam-branch-' + b)
@@ -1072,6 +1472,15 @@ def compare_with_model(ctx, P, case, out, m, area='C01'):
     if msg is not None:
         ctx.disagreement('Model.Cluster vs %s: %s' % (kind, msg), dict(case))
         return
+    if msg is None and kind == 'kmedoids_feedback':
+        cum = 0
+        for ri, (t, rr) in enumerate(zip(case['rounds'], out['rounds'])):
+            cum += t
+            m2 = same_as_model(P, rr, model_state(mo['sweeps'][cum - 1]))
+            if m2:
+                ctx.disagreement('Model.Cluster vs kmedoids fed back, round %d: %s' % (ri + 1, m2), dict(case))
+                return
+        ctx.tag('fed-back-rounds-agree')
     ctx.tag('model-agrees')
     # sweep by sweep (deterministic prefixes): state after t sweeps == model's t-th state
     T = case.get('n_iters', 0) or 0
@@ -1136,6 +1545,7 @@ def _run(ctx):
     for _ in range(ctx.n(40, 800)):   # larger
         cases.append(gen_case(rng, nmax=40))
     cases += large_family(ctx)
+    cases += audit_families(ctx)
     cases += list(tiny_tables(ctx, 3))
     cases += list(tiny_tables(ctx, 4, limit=ctx.n(150, 100000)))
     if ctx.thorough:
@@ -1143,7 +1553,12 @@ def _run(ctx):
     check_cases(ctx, cases)
     need = ['pam-branch-dn', 'pam-branch-other', 'pam-branch-this', 'pam-accept', 'pam-reject',
             'pam-all-three-branches', 'model-agrees', 'sweep-by-sweep-agrees', 'assign-argmin-branch',
-            'large-n', 'center-index>=256', 'k>255', 'n>65536']
+            'large-n', 'center-index>=256', 'k>255', 'n>65536', 'family=containers',
+            'family=scaled', 'family=exact-ties', 'family=degenerate', 'family=reuse', 'family=config',
+            'pam-exact-tie-other-candidate', 'pam-accept-after-exact-tie', 'same-objects-reused',
+            'fed-back-rounds-agree', 'proposals=current-medoids', 'singleton-cluster', 'inds_form=array32',
+            'props_form=tuple', 'assign_dtype=int32', 'dist_dtype=float32', 'x_layout=F', 'x_layout=strided',
+            'n_iters=0', 'n_iters=5+']
     ctx.note('under_covered', [t for t in need if not ctx.tags.get(t)])
 
 
